@@ -12,4 +12,5 @@ func genAll(repo string) {
 	genBlock(repo)
 	genCopy(repo)
 	genNJ(repo)
+	genPyramid(repo)
 }
